@@ -895,6 +895,24 @@ pub fn families(nmax: usize) -> Vec<(String, Vec<Op>)> {
             out.push((format!("barriers({})", n), v));
             out.push((format!("doubled-barriers({})", n), v2));
         }
+        if n <= 12 {
+            // a dependency list of n + 2 names in which one name occurs twice (first and last): n sources, `a` behind the
+            // first source, `b` depending on a, every source, and a again - b has to come after a
+            let mut v: Vec<Op> = (0..n).map(|i| s(nm(i), &[], &[], 3, vec![])).collect();
+            v.push(s("a".into(), &[], &[], 3, vec![nm(0)]));
+            let mut deps: Vec<String> = vec!["a".into()];
+            deps.extend((0..n).map(nm));
+            deps.push("a".into());
+            v.push(s("b".into(), &[], &[], 3, deps.clone()));
+            out.push((format!("repeated-name-in-long-dependency-list({})", n), v.clone()));
+            // ... and with the repeated name in the middle, twice in a row
+            let mut deps2: Vec<String> = (0..n).map(nm).collect();
+            deps2.insert(n / 2, "a".into());
+            deps2.insert(n / 2, "a".into());
+            v.pop();
+            v.push(s("b".into(), &[], &[], 1, deps2));
+            out.push((format!("repeated-name-in-the-middle-of-a-long-dependency-list({})", n), v));
+        }
         if n <= 8 {
             // fan-in: n sources, one sink depending on all of them
             let mut v: Vec<Op> = (0..n).map(|i| s(nm(i), &[], &[], 3, vec![])).collect();
@@ -984,6 +1002,31 @@ pub fn families(nmax: usize) -> Vec<(String, Vec<Op>)> {
 /// classes of one Rust type so that the contested id sorts first / in the middle / last among them.
 pub fn wide_families() -> Vec<(String, Vec<Op>, Vec<u8>)> {
     let mut out = Vec::new();
+    // builders that see MANY distinct resource ids (around 64 and 128): a filler system reads n ballast resources that
+    // nobody else names; around it, a writer that joins another writer's group through a dependency and the balance
+    // rule, and a third writer of the same resource registered last (it has to come after the second one)
+    for n in (60usize..=68).chain(124..=132) {
+        // abstract: 0 = X0, 1 = Y, 64.. = ballast; concrete: sweep classes 6.. in order of first appearance
+        let mut map: Vec<u8> = (0..64u8).map(|i| if (i as usize) < NCONCRETE { i } else { 0 }).collect();
+        map[0] = NCONCRETE as u8;
+        map[1] = (NCONCRETE + 1 + n) as u8;
+        let ballast: Vec<u8> = (0..n).map(|k| (64 + k) as u8).collect();
+        for k in 0..n {
+            map.push((NCONCRETE + 1 + k) as u8);
+        }
+        while map.len() < 256 {
+            map.push(0);
+        }
+        let heavy = s("heavy".into(), &[], &[], 5, vec![]);
+        let m1 = s("m1".into(), &[], &[0], 1, vec![]);
+        let filler = s("filler".into(), &ballast, &[], 3, vec![]);
+        let m2 = s("m2".into(), &[], &[1], 1, vec!["m1".into()]);
+        let last = s("s".into(), &[], &[1], 1, vec![]);
+        let last_r = s("s".into(), &[1], &[], 1, vec![]);
+        out.push((format!("many-ids({} ballast ids read by one system): heavy; writer of X; filler; writer of Y behind the writer of X; writer of Y", n), vec![heavy.clone(), m1.clone(), filler.clone(), m2.clone(), last.clone()], map.clone()));
+        out.push((format!("many-ids({} ballast ids): the same with a reader of Y last", n), vec![heavy.clone(), m1.clone(), filler.clone(), m2.clone(), last_r], map.clone()));
+        out.push((format!("many-ids({} ballast ids): filler first", n), vec![filler, heavy, m1, m2, last], map));
+    }
     for n in [15usize, 16, 17, 18, 24, 32] {
         let fillers: Vec<u8> = (1..=n as u8).collect();
         let x = 0u8;
